@@ -58,7 +58,7 @@ try:
         if cmd:
             cmd = cmd.split("&&")[0].strip()
             cmd = re.sub(r"\$\{?WT\}?", wt, cmd)
-            cmd = re.sub(r"/tmp/seed-C\d+/wt", wt, cmd)
+            cmd = re.sub(r"/tmp/seed\d*-C\d+/wt", wt, cmd)
             cmd = re.sub(r"\$\{?OUT\}?", os.path.dirname(demo), cmd)
             cmd = re.sub(r"-o\s+\S+", "-o " + exe, cmd)
             if "-o " not in cmd:
